@@ -1,4 +1,6 @@
 pub mod c01;
+pub mod c03;
+pub mod c04;
 pub mod c05;
 pub mod c10;
 pub mod c12;
@@ -15,6 +17,8 @@ use std::path::Path;
 pub fn run(ctx: &Ctx) -> i32 {
     match ctx.id.as_str() {
         "C01" => c01::run(ctx),
+        "C03" => c03::run(ctx),
+        "C04" => c04::run(ctx),
         "C05" => c05::run(ctx),
         "C10" => c10::run(ctx),
         "C12" => c12::run(ctx),
@@ -51,6 +55,8 @@ pub fn replay(ctx: &Ctx, path: &Path) -> i32 {
     let tape = unhex(v["tape_hex"].as_str().unwrap_or(""));
     let r = match ctx.id.as_str() {
         "C01" => c01::replay(ctx, &check, &tape),
+        "C03" => c03::replay(ctx, &check, &tape),
+        "C04" => c04::replay(ctx, &check, &tape),
         "C05" => c05::replay(ctx, &check, &tape),
         "C10" => c10::replay(ctx, &check, &tape),
         "C12" => c12::replay(ctx, &check, &tape),
